@@ -148,6 +148,13 @@ def inject(rng, lines):
         form = rng.choice([f"add zero, {acc}, {acc}", f"addi x0, {acc}, 1", f"lw zero, 0({acc})", "la x0, main"])
         new = ins(i + 1, form)
         out.append(("write-to-zero", new, ("save-to-zero", {i + 1}, form.split()[1].rstrip(","))))
+    # ... also when every source is the zero register itself (only the canonical nop, `addi x0, x0, 0`,
+    # computes nothing)
+    for i in rng.sample(sites, min(2, len(sites))):
+        form = rng.choice(["li zero, 7", "addi x0, x0, 4", "xori x0, x0, -1", "slti zero, zero, 1", "lui x0, 5",
+                           "add x0, x0, x0", "sub zero, zero, zero", "ori zero, x0, 1", "mv zero, zero", "neg x0, x0"])
+        new = ins(i + 1, form)
+        out.append(("write-to-zero", new, ("save-to-zero", {i + 1}, form.split()[1].rstrip(","))))
     # 8: stack access at or above the entry stack pointer
     for (a, b) in fns:
         pr = [i for i in range(a, b) if L[i][1] == "prologue-sp"][0]
